@@ -201,3 +201,42 @@ def seed_repoint(w):
     c.wires[0].connect_pin(u.pins[a.pins[0]])
     c.wires[1].connect_pin(u.pins[b.pins[0]])
     w.add(n)
+
+
+def seed_bundles(w):
+    """ports and cables of widths 1 and 2 (connected), array/scalar flags, an instanced definition."""
+    s = core.sdn()
+    n = s.Netlist(name="n")
+    lib = n.create_library(name="l")
+    leaf = lib.create_definition(name="leaf")
+    p1 = leaf.create_port(name="p1", pins=1)
+    p2 = leaf.create_port(name="p2", pins=2)
+    top = lib.create_definition(name="top")
+    c1 = top.create_cable(name="c1", wires=1)
+    c2 = top.create_cable(name="c2", wires=2)
+    u = top.create_child(name="u", reference=leaf)
+    c1.wires[0].connect_pin(u.pins[p1.pins[0]])
+    c2.wires[1].connect_pin(u.pins[p2.pins[1]])
+    w.add(n)
+
+
+def seed_two_netlists(w):
+    """two netlists whose instances reference definitions of the other one."""
+    s = core.sdn()
+    a = s.Netlist(name="a")
+    la = a.create_library(name="la")
+    da = la.create_definition(name="da")
+    pa = da.create_port(name="p", pins=1)
+    ta = la.create_definition(name="ta")
+    b = s.Netlist(name="b")
+    lb = b.create_library(name="lb")
+    db = lb.create_definition(name="db")
+    db.create_port(name="p", pins=1)
+    tb = lb.create_definition(name="tb")
+    xa = ta.create_child(name="x", reference=db)   # a's instance of b's definition
+    xb = tb.create_child(name="x", reference=da)   # and vice versa
+    c = tb.create_cable(name="c", wires=1)
+    c.wires[0].connect_pin(xb.pins[pa.pins[0]])
+    a.top_instance = ta
+    w.add(a)
+    w.add(b)
